@@ -55,7 +55,6 @@ Nil   == [kind |-> "nil", i |-> 0]
 
 NSteps == Len(cfg.steps)
 Out(i) == cfg.steps[i].out
-Panics == {"panic", "pnil"}
 
 (* a real error value came back (not nil, and Transact did not let a panic escape) *)
 IsError(r) == r.kind \notin {"nil", "raised", "none", "gone"}
@@ -68,13 +67,18 @@ Committing  == \/ pc = "run" /\ cur = NSteps
                \/ pc = "failed" /\ ~Noticed
 RollingBack == pc = "failed" /\ Noticed
 
+(* a panic with a nil value has no value to describe: an error saying so, or  *)
+(* any error that is not someone else's                                       *)
+PanicNilErrors(i) == {[kind |-> "panic", i |-> i], [kind |-> "other", i |-> 0]}
+
 (* what the caller may get once the transaction is finished *)
 RetAfterFinish(r) ==
   IF fin[1].op = "commit"
   THEN IF fin[1].ok THEN r = Nil ELSE IsError(r)     \* which error: left open
-  ELSE CASE Out(fail) = "err"    -> r = [kind |-> "step", i |-> fail]
-         [] Out(fail) \in Panics -> r = [kind |-> "panic", i |-> fail]
-         [] OTHER                -> FALSE              \* exit: nobody to return to
+  ELSE CASE Out(fail) = "err"   -> r = [kind |-> "step", i |-> fail]
+         [] Out(fail) = "panic" -> r = [kind |-> "panic", i |-> fail]
+         [] Out(fail) = "pnil"  -> r \in PanicNilErrors(fail)
+         [] OTHER               -> FALSE               \* exit: nobody to return to
 
 Do(a) ==
   CASE a.ev = "begin" ->
@@ -132,8 +136,8 @@ StepRecs == [out : Outs, ex : 0..MaxEx]
 StepLists == UNION {[1..m -> StepRecs] : m \in 0..MaxSteps}
 MkCfg(n, s, b, c, r) == [n |-> n, steps |-> s, begin |-> b, commit |-> c, rollback |-> r]
 
-RetVals == [kind : {"nil", "step", "panic", "begin", "commit", "rollback", "other", "raised"},
-            i : 0..MaxSteps]
+RetVals ==      [kind : {"nil", "begin", "commit", "rollback", "other", "raised"}, i : {0}]
+           \cup [kind : {"step", "panic"}, i : 1..MaxSteps]
 Acts ==
        [ev : {"begin", "commit", "rollback"}, ok : BOOLEAN]
   \cup [ev : {"step"}, i : 1..MaxSteps]
@@ -185,7 +189,8 @@ RetRight ==
      /\ cfg.n > 0 => (ret = Nil <=> fin = <<[op |-> "commit", ok |-> TRUE]>>)
      /\ ret.kind # "raised"
      /\ (fail > 0 /\ Out(fail) = "err")    => ret = [kind |-> "step", i |-> fail]
-     /\ (fail > 0 /\ Out(fail) \in Panics) => ret = [kind |-> "panic", i |-> fail]
+     /\ (fail > 0 /\ Out(fail) = "panic") => ret = [kind |-> "panic", i |-> fail]
+     /\ (fail > 0 /\ Out(fail) = "pnil")  => ret \in PanicNilErrors(fail)
 GoneOnlyByExit == ret = Gone => fail > 0 /\ Out(fail) = "exit"
 
 (* action properties, read off the action record of each step *)
